@@ -153,6 +153,41 @@ pub fn outcome<R>(f: impl FnOnce() -> R) -> Outcome<R> {
     }
 }
 
+/// number of calls that did not return within their time box (undecided cases; reported at the end as exit 2
+/// unless violations were found elsewhere)
+pub static TIMED_OUT: std::sync::atomic::AtomicU64 = std::sync::atomic::AtomicU64::new(0);
+
+/// `outcome` in a sacrificial thread with a time box, for calls into iterative code that a defect can
+/// turn into an endless loop. `None` = the call did not return within `secs` seconds: the case is
+/// UNDECIDED (never a violation - slowness is not a correctness signal), the spinning thread is
+/// abandoned, and the caller goes on with the next case so that other violations still surface.
+/// After three time-outs in the process further timed calls are refused (`None` at once): each
+/// abandoned thread keeps a core busy.
+pub fn outcome_timed<R: Send + 'static>(secs: u64, f: impl FnOnce() -> R + Send + 'static) -> Option<Outcome<R>> {
+    use std::sync::atomic::Ordering::SeqCst;
+    if TIMED_OUT.load(SeqCst) >= 3 {
+        TIMED_OUT.fetch_add(1, SeqCst);
+        return None;
+    }
+    let (tx, rx) = std::sync::mpsc::channel();
+    std::thread::spawn(move || {
+        let r = match catch(f) {
+            Ok(v) => Ok(Outcome::Returned(v)),
+            Err(p) if p.in_harness() => Err(format!("harness panic inside outcome_timed(): {} at {}", p.msg, p.at)),
+            Err(p) => Ok(Outcome::Panic(format!("{} at {}", p.msg, p.at))),
+        };
+        let _ = tx.send(r);
+    });
+    match rx.recv_timeout(std::time::Duration::from_secs(secs)) {
+        Ok(Ok(o)) => Some(o),
+        Ok(Err(m)) => panic!("{}", m),
+        Err(_) => {
+            TIMED_OUT.fetch_add(1, SeqCst);
+            None
+        }
+    }
+}
+
 /// Outcome of an expression that is expected to panic *at the call site inside the harness*
 /// (the same expression on a primitive integer, used as a twin oracle): no harness classification.
 pub fn outcome_here<R>(f: impl FnOnce() -> R) -> Outcome<R> {
@@ -773,6 +808,11 @@ pub fn main(prop: Property, jobs: Vec<Job>, selftests: &[(&str, fn() -> Result<u
     let (viol, errs) = write_replays(prop.id, &replay_dir, &opts.profile, opts.seed, &format!("{:?}", opts.tier).to_lowercase(), &stats.failures);
     violations.extend(viol);
     harness_errors.extend(errs);
+
+    let timed_out = TIMED_OUT.load(std::sync::atomic::Ordering::SeqCst);
+    if timed_out > 0 {
+        harness_errors.push(format!("{} call(s) into the code under test did not return within their time box: those cases are undecided (a hang in the code under test, or an overloaded machine)", timed_out));
+    }
 
     // vacuity guards (depend only on generators / reference side)
     let distinct = stats.hashes.len() as u64;
